@@ -2,6 +2,7 @@ package c20
 
 import (
 	"fmt"
+	"regexp"
 	"strings"
 
 	lua "github.com/yuin/gopher-lua"
@@ -359,6 +360,8 @@ func (m *sim) globalTable(name string, observed lua.LValue, what string) {
 	}
 }
 
+var posPrefixRe = regexp.MustCompile(`:\d+: `)
+
 // checkErr checks an error text against the class the model expects.
 func (m *sim) checkErr(e *merr, txt string, what string) {
 	if gl.IsGoRuntimeErrorText(txt) {
@@ -390,6 +393,10 @@ func (m *sim) checkErr(e *merr, txt string, what string) {
 		want := fmt.Sprintf("E-boom:%d:%d", e.id, e.k)
 		if !strings.Contains(txt, want) {
 			m.fail("", "%s: the loader's error %s must surface, observed error %q", what, want, fw.Short(txt, 300))
+		} else if head := txt[:strings.Index(txt, want)]; len(posPrefixRe.FindAllString(head, -1)) > 1 {
+			// the loader's error passes through require (and through the requires that led to
+			// it) unchanged: at most the one position its own error() call gave it
+			m.fail("", "%s: the loader's error %s gained position prefixes on its way out of require: %q", what, want, fw.Short(txt, 300))
 		}
 	case "loaderr", "any":
 		// an error, nothing more is stated
